@@ -103,17 +103,21 @@ impl Monitor for C17 {
             ("renumberings_with_gaps_survived", tier.pick(300, 6_000)),
             ("calls_compared_with_clean_twin", tier.pick(40_000, 800_000)),
             ("squatter_cases_entry_untouched", tier.pick(200, 5_000)),
+            ("non_utf8_directory_cases_sibling_untouched", tier.pick(60, 1_500)),
             ("non_utf8_named_foreign_files_newer_than_live_wal_files", tier.pick(1_000, 20_000)),
             ("foreign_sockets_named_like_wal_files", tier.pick(1_000, 20_000)),
         ]
     }
     fn rule(&self) -> String {
-        "case = one generated roll-over/GC-heavy history run on a directory seeded (before the first open and again between restarts) with foreign entries: near-miss names (19/21 digits, non-digit, other case/prefix, number not fitting u64, non-ASCII digits with a 24-byte name, 24-byte names with a multi-byte character across byte 4, names that are not valid UTF-8 (also created after the live WAL files), trailing newline, dot-prefixed), ordinary files, and sub-directories / symlinks (to a WAL file, dangling) / a unix socket named exactly like WAL files with numbers outside the live range; at some restarts the valid WAL files are renumbered with gaps; evaluation = one traced path-carrying syscall (open/create/read/write/ftruncate/unlink/rename) whose basename must match ^wal-[0-9]{20}$ and refer to a regular file (the directory itself may be opened read-only), or one foreign entry re-verified (type, size, content hash, link target) or one call compared with a twin log running the same history on a clean directory; one case in eight is a 'squatter' scenario: a symlink to a file (one in four: an empty file) outside the directory / a dangling symlink / a sub-directory sits exactly at the next file name the library will create; failed appends are retried and everything is truncated at the end (a GC pass); calls may fail with an I/O error but nothing may be written through, created, replaced or removed; distinct_nontrivial = distinct (foreign name, syscall kind it coexisted with) pairs and distinct path-event kinds x file numbers".into()
+        "case = one generated roll-over/GC-heavy history run on a directory seeded (before the first open and again between restarts) with foreign entries: near-miss names (19/21 digits, non-digit, other case/prefix, number not fitting u64, non-ASCII digits with a 24-byte name, 24-byte names with a multi-byte character across byte 4, names that are not valid UTF-8 (also created after the live WAL files), trailing newline, dot-prefixed), ordinary files, and sub-directories / symlinks (to a WAL file, dangling) / a unix socket named exactly like WAL files with numbers outside the live range; at some restarts the valid WAL files are renumbered with gaps; evaluation = one traced path-carrying syscall (open/create/read/write/ftruncate/unlink/rename) whose basename must match ^wal-[0-9]{20}$ and refer to a regular file (the directory itself may be opened read-only), or one foreign entry re-verified (type, size, content hash, link target) or one call compared with a twin log running the same history on a clean directory; one case in 32 runs a roll-over/GC history in a directory whose own path is not valid UTF-8, next to a sibling directory named like its lossy rendering and holding files named like WAL files (they must stay untouched); one case in eight is a 'squatter' scenario: a symlink to a file (one in four: an empty file) outside the directory / a dangling symlink / a sub-directory sits exactly at the next file name the library will create; failed appends are retried and everything is truncated at the end (a GC pass); calls may fail with an I/O error but nothing may be written through, created, replaced or removed; distinct_nontrivial = distinct (foreign name, syscall kind it coexisted with) pairs and distinct path-event kinds x file numbers".into()
     }
     fn assumptions(&self) -> Vec<String> {
         vec!["sub-directories / symlinks named exactly like WAL files are only placed at numbers the log will never create (below the oldest live file or above 2^40): a name collision with a future file makes create fail with an I/O error, which the statement does not forbid".into()]
     }
     fn run_case(&self, ctx: &Ctx, case: u64, acc: &mut Acc) {
+        if case % 32 == 31 {
+            return non_utf8_directory_case(ctx, case, acc);
+        }
         if case % 8 == 7 {
             return squatter_case(ctx, case, acc);
         }
@@ -539,4 +543,75 @@ fn squatter_case(ctx: &Ctx, case: u64, acc: &mut Acc) {
     }
     acc.count("squatter_cases_entry_untouched");
     acc.sample(|| json!({"case": case, "scenario": "squatter", "name": name, "kind": kind_name, "calls": calls.iter().rev().take(3).collect::<Vec<_>>()}));
+}
+
+/// The WAL directory's own path contains a byte sequence that is not valid UTF-8, and a sibling
+/// directory whose name is the lossy rendering of it (U+FFFD) holds files named like the WAL
+/// files.  A roll-over / GC history must leave the sibling alone: every path the library
+/// builds has to be derived from the directory it was given, byte for byte.
+fn non_utf8_directory_case(ctx: &Ctx, case: u64, acc: &mut Acc) {
+    use std::os::unix::ffi::OsStrExt;
+    let parts = ctx.case_seed(case);
+    let mut rng = Rng::from_parts(&parts);
+    let base = ctx.scratch.sub("c17-nonutf8");
+    let dir = base.join(std::ffi::OsStr::from_bytes(b"wal\xFFdir"));
+    let sibling = base.join("wal\u{FFFD}dir");
+    if std::fs::create_dir(&dir).is_err() || std::fs::create_dir(&sibling).is_err() {
+        acc.inconclusive("the file system refuses a directory name that is not valid UTF-8".to_string());
+        return;
+    }
+    let mut planted: Vec<(std::path::PathBuf, Vec<u8>)> = Vec::new();
+    for n in 0..6u64 {
+        let mut content = vec![0u8; rng.usize(10, 5_000)];
+        rng.fill(&mut content);
+        let p = sibling.join(format!("wal-{:020}", n));
+        std::fs::write(&p, &content).expect("plant look-alike file");
+        planted.push((p, content));
+    }
+    acc.count("non_utf8_directory_cases");
+    let mut calls = Vec::new();
+    let key = parts[2];
+    let policy = if rng.chance(1, 2) { Policy::AlwaysFlush } else { Policy::DoNothing };
+    match Sut::open(&dir, policy, key, false) {
+        Err(e) => calls.push(format!("open -> {:?}", e)),
+        Ok(mut sut) => {
+            let q = "q".to_string();
+            calls.push(format!("create_queue -> {:?}", sut.apply(0, &Op::Create { q: q.clone() })));
+            let mut last = None;
+            for k in 1..=rng.usize(5, 10) {
+                let o = sut.apply(k, &Op::Append { q: q.clone(), pos: None, lens: vec![rng.usize(30_000, 60_000)], chained: false });
+                if let crate::ops::Outcome::Appended { last: Some(p), .. } = &o {
+                    last = Some(*p);
+                }
+                calls.push(format!("append -> {:?}", o));
+            }
+            if let Some(p) = last {
+                // releases every file but the current one: a GC pass with unlinks
+                calls.push(format!("truncate ..={} -> {:?}", p.saturating_sub(1), sut.apply(40, &Op::Truncate { q: q.clone(), pos: p.saturating_sub(1) })));
+                calls.push(format!("append -> {:?}", sut.apply(41, &Op::Append { q: q.clone(), pos: None, lens: vec![100], chained: false })));
+                let r = sut.apply(42, &Op::Restart);
+                calls.push(format!("restart -> {:?}", r));
+                if matches!(r, crate::ops::Outcome::Restarted) {
+                    calls.push(format!("truncate ..={} -> {:?}", p + 1, sut.apply(43, &Op::Truncate { q: q.clone(), pos: p + 1 })));
+                }
+            }
+            if calls.iter().any(|c| c.contains("Io(")) {
+                acc.count("non_utf8_directory_cases_with_a_call_failing_with_an_io_error");
+            }
+            sut.close(99);
+        }
+    }
+    acc.eval();
+    for (p, content) in &planted {
+        if std::fs::read(p).map(|d| &d != content).unwrap_or(true) {
+            acc.violation(
+                "C17/touched-a-file-outside-the-wal-directory/non-utf8-directory-path",
+                case,
+                json!({"wal_directory": "<scratch>/wal\\xFFdir", "sibling_directory": "<scratch>/wal\u{FFFD}dir", "file": p.file_name().map(|n| n.to_string_lossy().to_string()),
+                       "calls": calls, "violated": "a file of a sibling directory (whose name is the lossy UTF-8 rendering of the WAL directory's) was removed or modified"}),
+            );
+            return;
+        }
+    }
+    acc.count("non_utf8_directory_cases_sibling_untouched");
 }
